@@ -93,10 +93,13 @@ template <class PT> void run_cloud(vf::Ctx& c, const char* tname, const Cloud& c
     large.compute(P, tree2, t2);
     PointSet<PT> part(P.begin(), P.begin() + std::max<size_t>(k + 1, N / 2)); NormalSet<PT> tp(part.size(), PT(PT::Zero())); est.compute(part, tp);
     est.compute(P, tree2, n8, c8);
+    // a copy of the estimator, and the larger-k estimator overwritten by assignment
+    NormalSet<PT> n9 = fresh_normals(), n10 = fresh_normals(); std::vector<S> c9(N), c10(N);
+    { NormalAndCurvatureEstimation<PT> cp(est); cp.compute(P, tree2, n9, c9); large = est; large.compute(P, n10, c10); }
     auto eq = [](S a, S b) { return a == b || (a != a && b != b); };
     for (size_t i = 0; i < N; ++i) {
-      bool same = eq(c7[i], c3[i]) && eq(c8[i], c3[i]); for (int d = 0; d < DIM; ++d) if (n7[i][d] != n1[i][d] || n8[i][d] != n1[i][d]) same = false;
-      if (!same) { c.violation("NormalAndCurvatureEstimation.dependsOnHistory", params0, vf::JO().u("point", i).vec("fresh", std::vector<double>{(double)n1[i][0], (double)n1[i][1], (double)c3[i]}).vec("after_smaller_k_on_the_tree", std::vector<double>{(double)n7[i][0], (double)n7[i][1], (double)c7[i]}).vec("after_larger_k_and_other_cloud", std::vector<double>{(double)n8[i][0], (double)n8[i][1], (double)c8[i]}).done()); break; }
+      bool same = eq(c7[i], c3[i]) && eq(c8[i], c3[i]) && eq(c9[i], c3[i]) && eq(c10[i], c3[i]); for (int d = 0; d < DIM; ++d) if (n7[i][d] != n1[i][d] || n8[i][d] != n1[i][d] || n9[i][d] != n1[i][d] || n10[i][d] != n1[i][d]) same = false;
+      if (!same) { c.violation("NormalAndCurvatureEstimation.dependsOnHistory", params0, vf::JO().u("point", i).vec("fresh", std::vector<double>{(double)n1[i][0], (double)n1[i][1], (double)c3[i]}).vec("after_smaller_k_on_the_tree", std::vector<double>{(double)n7[i][0], (double)n7[i][1], (double)c7[i]}).vec("after_larger_k_and_other_cloud", std::vector<double>{(double)n8[i][0], (double)n8[i][1], (double)c8[i]}).vec("copy_constructed", std::vector<double>{(double)n9[i][0], (double)n9[i][1], (double)c9[i]}).vec("assigned", std::vector<double>{(double)n10[i][0], (double)n10[i][1], (double)c10[i]}).done()); break; }
     }
   }
   // un-rotated run for equivariance
@@ -185,7 +188,7 @@ std::string vf_describe(const std::string& tier) {
   o.str("rotations", "identity, Rz(0.3), Rx(1.1)Ry(-0.7) (2D: R(-2.0)), Rz(pi)");
   o.str("output_normals", "zero-initialised and default-constructed (homogeneous coordinate 1; Cartesian: constant 0.5)");
   o.str("overloads", "all six compute overloads, compared bitwise");
-  o.str("history", "a second kd-tree shared with an estimator of smaller k (first) and larger k (later), the estimator under test also run on a sub-cloud in between: answers bit-equal to the first run");
+  o.str("history", "a second kd-tree shared with an estimator of smaller k (first) and larger k (later), the estimator under test also run on a sub-cloud in between, a copy-constructed estimator and an estimator overwritten by assignment: answers bit-equal to the first run");
   o.str("oracle", "unit Cartesian length; n.p<=0; direction vs long-double PCA of the library's own k-NN answer with bound 6 eps (1+R/s)/gap (cases with gap<=1e-6, bound>0.05 or a k/(k+1) distance tie are skipped); planar clouds: surface normal and zero curvature; curvature in [0,1/DIM]; R n(p) = n'(R p)");
   return o.done();
 }
